@@ -378,6 +378,101 @@ let suite_table (line : string) : string =
            Printf.sprintf "%s %s 1 %s %s %s | 1 %s %s %s" id lay gres script filt gspec spec_script filt)
   | _ -> failwith "bad table case"
 
+(* ---------- suite: vfn (selection functions over file metadata) ---------- *)
+let parse_ikey (tok : string) : ikey = fst (parse_entry tok)
+let opt_ikey tok = if tok = "-" then None else Some (parse_ikey tok)
+
+let parse_file (tok : string) : int * fmeta =
+  match String.split_on_char ':' (String.sub tok 1 (String.length tok - 1)) with
+  | [ l; num; size; su; ss; so; lu; ls; lo ] ->
+      ( int_of_string l,
+        { fm_num = n_of_string num; fm_size = n_of_string size;
+          fm_small = { ik_user = parse_bytes su; ik_seq = n_of_string ss; ik_op = n_of_int (int_of_string so) };
+          fm_large = { ik_user = parse_bytes lu; ik_seq = n_of_string ls; ik_op = n_of_int (int_of_string lo) } } )
+  | _ -> failwith ("bad file token " ^ tok)
+
+let nums (fs : fmeta list) : string =
+  if fs = [] then "-" else String.concat "," (List.map (fun f -> string_of_n f.fm_num) fs)
+
+let levels_str (ls : fmeta list list) : string = String.concat "/" (List.map nums ls)
+
+let suite_vfn (line : string) : string =
+  match split_nonempty ' ' line with
+  | id :: cfg :: func :: a1 :: a2 :: a3 :: toks ->
+      let mfs, d1 =
+        match String.split_on_char ':' cfg with
+        | [ m; d ] -> (n_of_string m, d = "1")
+        | _ -> failwith "bad cfg"
+      in
+      let levels = Array.make 7 [] in
+      let deleted = ref [] and added = ref [] in
+      List.iter
+        (fun t ->
+          match t.[0] with
+          | 'F' ->
+              let l, f = parse_file t in
+              levels.(l) <- levels.(l) @ [ f ]
+          | 'A' ->
+              let l, f = parse_file t in
+              added := !added @ [ (nat_of_int l, f) ]
+          | 'D' -> (
+              match String.split_on_char ':' (String.sub t 1 (String.length t - 1)) with
+              | [ l; n ] -> deleted := !deleted @ [ (nat_of_int (int_of_string l), n_of_string n) ]
+              | _ -> failwith "bad D")
+          | _ -> failwith "bad token")
+        toks;
+      let v = Array.to_list levels in
+      let show_range = function
+        | None -> "panic"
+        | Some (a, b) -> show_key a ^ "~" ^ show_key b
+      in
+      let out =
+        match func with
+        | "range" -> show_range (key_range_for_files d1 levels.(0))
+        | "range2" -> show_range (key_range_for_two d1 levels.(0) levels.(1))
+        | "ffub" -> (
+            match find_file_upper_bound levels.(1) (parse_ikey a1) with
+            | None -> "none"
+            | Some i -> string_of_int (int_of_nat i))
+        | "ovl" ->
+            let lo = if a2 = "-" then None else Some (parse_bytes a2) in
+            let hi = if a3 = "-" then None else Some (parse_bytes a3) in
+            if has_overlap_in_level v (nat_of_int (int_of_string a1)) lo hi then "1" else "0"
+        | "getfiles" -> levels_str (get_overlapping_files v (parse_ikey a1))
+        | "oci" -> nums (overlapping_inputs v (nat_of_int (int_of_string a1)) (opt_ikey a2) (opt_ikey a3))
+        | "plmo" ->
+            string_of_int (int_of_nat (pick_level_for_memtable_output v mfs (parse_bytes a1) (parse_bytes a2)))
+        | "fin" -> (
+            let level = nat_of_int (int_of_string a1) in
+            let seed = List.filter (fun x -> x <> "-") (split_nonempty ',' a2) |> List.map n_of_string in
+            let base = List.filter (fun x -> x <> "-") (split_nonempty ',' a3) |> List.map parse_bytes in
+            match finalize_inputs d1 mfs v level (files_of v level seed) with
+            | None -> "panic"
+            | Some ci ->
+                let bs = String.concat "" (List.map (fun u -> if is_base_level_for_key v level u then "1" else "0") base) in
+                Printf.sprintf "%s %s %d %s %s" (nums ci.ci_in0) (nums ci.ci_in1)
+                  (if is_trivial_move mfs ci then 1 else 0)
+                  (match ci.ci_pointer with Some k -> show_key k | None -> "none")
+                  (if bs = "" then "-" else bs))
+        | "finspec" -> (
+            (* a1 level, a2 seed, a3 = the implementation's answer "<in0>;<in1>" to be judged *)
+            let level = nat_of_int (int_of_string a1) in
+            let seed = List.filter (fun x -> x <> "-") (split_nonempty ',' a2) |> List.map n_of_string in
+            match String.split_on_char ';' a3 with
+            | [ i0; i1 ] ->
+                let pick l s = files_of v l (List.filter (fun x -> x <> "-") (split_nonempty ',' s) |> List.map n_of_string) in
+                let ci = { ci_level = level; ci_in0 = pick level i0; ci_in1 = pick (S level) i1; ci_grand = []; ci_pointer = None } in
+                if not (version_wf v) then "skip" else if inputs_closed v (files_of v level seed) ci then "closed" else "NOT-CLOSED"
+            | _ -> failwith "bad finspec")
+        | "apply" -> (
+            match apply_edit v { ve_deleted = !deleted; ve_added = !added } with
+            | None -> "panic"
+            | Some v' -> levels_str v')
+        | _ -> failwith "unknown function"
+      in
+      Printf.sprintf "%s %s | none" id out
+  | _ -> failwith "bad vfn case"
+
 let () =
   let suite = Sys.argv.(1) in
   let f =
@@ -389,6 +484,7 @@ let () =
     | "key" -> suite_key
     | "block" -> suite_block
     | "table" -> suite_table
+    | "vfn" -> suite_vfn
     | _ -> failwith ("unknown suite " ^ suite)
   in
   try
